@@ -3,15 +3,53 @@ Correspondence: psi / amplitude / phase / probability / normalization of real Po
 objects vs the extracted Coq model (States.pos_psi, cplx_psi, ...), on all 2^n basis states, 2-D and 1-D forms.
 Oracle (property relation on the implementation's own outputs): |psi|^2 = probability = brute-force hidden
 marginal; normalization = sum of probabilities; complex modulus independent of the phase net; phase = -E_ph/2
-(E_ph computed independently in numpy); positive state real and > 0."""
-import itertools, math
+(E_ph computed independently in numpy); positive state real and > 0.
+Regimes of the CALLING PROGRAM (red-team round 2): every relation is also evaluated with the library calls made under
+torch.no_grad(), torch.inference_mode(), torch.enable_grad() and torch.set_default_dtype(float32 / float64); the 1-D call
+forms must return ONE entry of the batched result (same shape as indexing it); the normalisation constant is handed
+to probability(v, Z) as Python float / numpy float / int / tensor; batches are also strided views; every returned
+tensor is overwritten in place by the caller (it is his) and the same calls are repeated."""
+import contextlib, itertools, math
 import numpy as np
 import gen
 
 RULE = ("architectures nv 1..5 x nh 1..6 (quick: covering subset incl. nh != nv, size-1 dims; thorough: all 30), "
-        "parameter draws from the mixture in harness/gen.py, all 2^n basis states, batched and 1-D call forms; "
-        "a case is (state type, nv, nh, parameter draw); non-trivial := all biases non-zero and (nh != nv or complex)")
-ASSUMPTIONS = ["torch softplus/logsumexp/matmul implement the real functions up to rounding"]
+        "parameter draws from the mixture in harness/gen.py, all 2^n basis states, batched and 1-D call forms (values AND shapes; "
+        "contiguous, strided and column-major batches; double / float32 / int64 0-1 data); fixed cases first: both state types x "
+        "calling modes {no_grad, inference_mode, enable_grad, default dtype float32 / float64 (state built and used under it)}, then the stream "
+        "in which every third draw rotates through these modes; Z of probability(v, Z) as tensor / Python float (log-uniform) / "
+        "numpy float64 / int; every returned tensor overwritten in place by the caller, then the same calls again; "
+        "a case is (state type, nv, nh, parameter draw, calling mode); non-trivial := all biases non-zero and (nh != nv or complex)")
+ASSUMPTIONS = ["torch softplus/logsumexp/matmul implement the real functions up to rounding",
+               "Z of probability(v, Z) is a Python / numpy real number, an int or a 0-dim double tensor (the documented type is float); "
+               "single-precision tensors as Z are not generated"]
+
+# the regimes of the calling program under which the library is called ("ambient" = whatever the driver set: grad enabled,
+# or -- every third quick seed / second thorough pass -- the whole run under no_grad)
+MODES = ["ambient", "no_grad", "inference_mode", "enable_grad", "default_float32", "default_float64"]
+
+
+@contextlib.contextmanager
+def calling_mode(mode):
+    import torch
+    if mode == "no_grad":
+        with torch.no_grad():
+            yield
+    elif mode == "inference_mode":
+        with torch.inference_mode():
+            yield
+    elif mode == "enable_grad":
+        with torch.enable_grad():
+            yield
+    elif mode in ("default_float32", "default_float64"):
+        old = torch.get_default_dtype()
+        torch.set_default_dtype(torch.float32 if mode == "default_float32" else torch.float64)
+        try:
+            yield
+        finally:
+            torch.set_default_dtype(old)
+    else:
+        yield
 
 
 def shapes(ctx):
@@ -38,22 +76,57 @@ def big_bias(ctx, n):
     return x
 
 
-def evaluate(ctx, s, kind, am, ph, space, case, nontriv, tag=""):
-    """correspondence + oracle for the state object s holding parameters am (and ph); space: full basis tensor"""
+def evaluate(ctx, s, kind, am, ph, space, case, nontriv, tag="", mode="ambient"):
+    """correspondence + oracle for the state object s holding parameters am (and ph); space: full basis tensor;
+    every library call is made under the calling program's regime `mode`"""
+    with calling_mode(mode):
+        return _evaluate(ctx, s, kind, am, ph, space, case, nontriv, tag, mode)
+
+
+def same(a, b, bound=0.0):
+    """same shape and |a - b| <= 1e-12 |b| + 1e-12 bound elementwise (bound: size of the summands behind b, so that a result that
+    is small only through cancellation is not held to a relative tolerance)"""
+    a, b = np.asarray(a, dtype=float), np.asarray(b, dtype=float)
+    return a.shape == b.shape and bool(np.all(np.abs(a - b) <= 1e-12 * np.abs(b) + 1e-12 * np.asarray(bound)))
+
+
+def entry_shape(t, i):
+    """shape of ONE entry of a batched result (what the vector call form must return)"""
+    return tuple(t[..., i].shape)
+
+
+def overwrite(ts):
+    """the caller scribbles over tensors the library returned to him"""
+    import torch
+    with torch.no_grad():
+        for t in ts:
+            t.mul_(0).add_(7)
+
+
+def _evaluate(ctx, s, kind, am, ph, space, case, nontriv, tag, mode):
     import torch
     m = ctx.get_model()
     W, b, c = am
-    sp = space.numpy()
+    sp = space.numpy().copy()
+    N = len(sp)
     E = gen.np_eff_energy(W, b, c, sp)
     if np.max(-E) > 600 or np.min(-E) < -600 or (ph is not None and np.max(np.abs(gen.np_eff_energy(*ph, sp))) > 1e6):
         ctx.count("skipped_overflow")
         return False
-    ctx.case({"state": kind, "nv": case["nv"], "nh": case["nh"], "W00": float(W[0, 0]), "b0": float(b[0]), "c0": float(c[0]), "step": tag}, nontrivial=nontriv)
+    ctx.case({"state": kind, "nv": case["nv"], "nh": case["nh"], "W00": float(W[0, 0]), "b0": float(b[0]), "c0": float(c[0]), "step": tag,
+              "mode": mode}, nontrivial=nontriv)
+    ctx.count("mode:" + mode)
+    # size of the summands of the phase (a rounding-level difference between two evaluation orders is relative to it)
+    ph_scale = 0.0 if ph is None else 0.5 * float(sum(np.abs(x).sum() for x in ph))
     ok, out = ctx.call("state evaluation" + tag, case, lambda: (
         s.psi(space), s.amplitude(space), s.phase(space), s.probability(space), s.normalization(space)))
     if not ok:
         return False
     psi, amp, phase, prob, Z = out
+    shp = [tuple(t.shape) for t in (psi, amp, phase, prob)]
+    if not ctx.require("batched call form: psi has shape (2, N), amplitude / phase / probability shape (N,)" + tag,
+                       shp == [(2, N), (N,), (N,), (N,)], case, shp):
+        return False
     # ---- correspondence with the Coq model
     if kind == "positive":
         r = m.call("pos_state", W, b, c, sp)
@@ -66,66 +139,157 @@ def evaluate(ctx, s, kind, am, ph, space, case, nontriv, tag=""):
     ctx.agree("psi.im" + tag, psi[1], [p[1] for p in m_psi], case, scale=max(m_amp))
     ctx.agree("probability" + tag, prob, m_prob, case)
     ctx.agree("normalization" + tag, Z, m_Z, case)
-    # 1-D call forms agree with the batched form
-    for i in (0, len(sp) - 1, len(sp) // 2):
-        v1 = space[i]
+    # 1-D call forms: ONE entry of the batched form (value and shape); the vector is a fresh row, and a strided one
+    # (a column of the transposed, column-major copy of the basis)
+    spT = space.t().contiguous()
+    ones = []
+    names = ("psi", "amplitude", "phase", "probability")
+    for j, i in enumerate((0, N - 1, N // 2)):
+        v1 = space[i] if j != 1 else spT[:, i]
         ok, o1 = ctx.call("1-D call forms", case, lambda: (s.psi(v1), s.amplitude(v1), s.phase(v1), s.probability(v1)))
         if ok:
+            ones.append((i, v1, o1))
+            got = [tuple(t.shape) for t in o1]
+            want = [entry_shape(t, i) for t in (psi, amp, phase, prob)]
+            if not ctx.require("1-D call forms return one entry of the batched result: psi(v) of shape (2,), amplitude / phase / "
+                               "probability 0-dim" + tag, got == want, case, {"shapes": got, "want": want, "row": i}):
+                continue
             ctx.agree("psi 1-D" + tag, o1[0], [m_psi[i][0], m_psi[i][1]], case, scale=max(m_amp))
             ctx.agree("amplitude 1-D" + tag, o1[1], m_amp[i], case)
             ctx.agree("phase 1-D" + tag, o1[2], m_phase[i], case)
             ctx.agree("probability 1-D" + tag, o1[3], m_prob[i], case)
-    # ---- property oracle on the implementation's own outputs
-    psi_n = psi.numpy(); prob_n = prob.numpy()
+            good = all(same(o.numpy(), t[..., i].numpy(), bd) for o, t, bd in zip(o1, (psi, amp, phase, prob), (amp[i].item(), 0.0, ph_scale, 0.0)))
+            ctx.require("1-D call forms give the value of the batched form at that basis state" + tag, good, case,
+                        {"row": i, "1-D": [o.tolist() for o in o1]})
+    # ---- property oracle on the implementation's own outputs (copies: the tensors are overwritten further down)
+    psi_n = psi.numpy().copy(); prob_n = prob.numpy().copy(); amp_n = amp.numpy().copy(); phase_n = phase.numpy().copy()
+    Zf = float(Z)
     mod2 = psi_n[0] ** 2 + psi_n[1] ** 2
     ctx.require("|psi|^2 == probability" + tag, np.allclose(mod2, prob_n, rtol=1e-9, atol=0), case, (mod2 - prob_n).tolist())
     marg = np.array([hidden_marginal(W, b, c, v) for v in sp])
     ctx.require("probability == hidden-unit marginal" + tag, np.allclose(prob_n, marg, rtol=1e-7, atol=0), case,
                 {"prob": prob_n.tolist(), "marginal": marg.tolist()})
-    ctx.require("normalization == sum of probabilities" + tag, math.isclose(float(Z), float(prob_n.sum()), rel_tol=1e-9), case,
-                {"Z": float(Z), "sum": float(prob_n.sum())})
-    ctx.require("normalization == sum of hidden-unit marginals over the whole basis" + tag, math.isclose(float(Z), float(marg.sum()), rel_tol=1e-7), case,
-                {"Z": float(Z), "sum": float(marg.sum())})
-    ctx.require("amplitude == sqrt(probability)" + tag, np.allclose(amp.numpy() ** 2, marg, rtol=1e-7, atol=0), case)
-    # probability(v, Z): the normalised probabilities sum to one, and scale as 1/Z
-    ok, pz = ctx.call("probability(space, Z)", case, lambda: (s.probability(space, Z), s.probability(space, 2.5)))
-    if ok:
-        ctx.require("normalised probabilities sum to one" + tag, math.isclose(float(pz[0].sum()), 1.0, rel_tol=1e-9), case, float(pz[0].sum()))
-        ctx.require("probability(v, Z) == probability(v) / Z" + tag, np.allclose(pz[1].numpy() * 2.5, prob_n, rtol=1e-12, atol=0), case)
-        ctx.require("normalised state has unit norm" + tag, math.isclose(float(mod2.sum() / float(Z)), 1.0, rel_tol=1e-9), case)
-    # ---- documented aliases, other sample dtypes, batches far larger than the basis (gathered rows)
+    ctx.require("normalization == sum of probabilities" + tag, math.isclose(Zf, float(prob_n.sum()), rel_tol=1e-9), case,
+                {"Z": Zf, "sum": float(prob_n.sum())})
+    ctx.require("normalization == sum of hidden-unit marginals over the whole basis" + tag, math.isclose(Zf, float(marg.sum()), rel_tol=1e-7), case,
+                {"Z": Zf, "sum": float(marg.sum())})
+    ctx.require("amplitude == sqrt(probability)" + tag, np.allclose(amp_n ** 2, marg, rtol=1e-7, atol=0), case)
+    # probability(v, Z): the normalised probabilities sum to one, and scale as 1/Z -- Z handed over as the tensor the
+    # library returned, as a Python float (the documented type; the state's own normalisation and a log-uniform one),
+    # as a numpy float and as an int
+    Zr = float(np.exp(ctx.rng.uniform(np.log(1e-3), np.log(1e3))))
+    Zi = int(ctx.rng.integers(2, 10))
+    zforms = (("tensor returned by normalization", Z, Zf), ("Python float of the normalisation", Zf, Zf), ("numpy float64 of the normalisation", np.float64(Zf), Zf),
+              ("Python float", Zr, Zr), ("Python float 2.5", 2.5, 2.5), ("numpy float64", np.float64(Zr), Zr), ("int", Zi, float(Zi)))
+    for zname, zarg, zval in zforms:
+        ok, pz = ctx.call("probability(space, Z as %s)" % zname, case, lambda: (s.probability(space, zarg), s.probability(space[N - 1], zarg)))
+        if not ok:
+            continue
+        pzn = np.asarray(pz[0].numpy(), dtype=float)
+        zcase = dict(case, Z_form=zname, Z=zval)
+        ctx.require("probability(v, Z) == probability(v) / Z" + tag, pzn.shape == prob_n.shape and np.allclose(pzn * zval, prob_n, rtol=1e-12, atol=0)
+                    and tuple(pz[1].shape) == () and math.isclose(float(pz[1]) * zval, float(prob_n[N - 1]), rel_tol=1e-12), zcase,
+                    {"max rel. error": float(np.max(np.abs(pzn * zval - prob_n) / prob_n)) if pzn.shape == prob_n.shape else "shape %r" % (pzn.shape,)})
+        if zval == Zf:
+            ctx.require("normalised probabilities sum to one" + tag, math.isclose(float(pzn.sum()), 1.0, rel_tol=1e-9), zcase, float(pzn.sum()))
+    ctx.require("normalised state has unit norm" + tag, math.isclose(float(mod2.sum() / Zf), 1.0, rel_tol=1e-9), case)
+    # ---- documented aliases, other sample dtypes and memory layouts, batches far larger than the basis (gathered rows)
     ok, al = ctx.call("normalisation aliases", case, lambda: (s.compute_normalization(space), s.rbm_am.partition(space)))
     if ok:
-        ctx.require("compute_normalization(space) == normalization(space)" + tag, math.isclose(float(al[0]), float(Z), rel_tol=1e-12), case, float(al[0]))
-        ctx.require("rbm_am.partition(space) == normalization(space)" + tag, math.isclose(float(al[1]), float(Z), rel_tol=1e-12), case, float(al[1]))
-    for dname, conv in (("float32", lambda t: t.float()), ("int64", lambda t: t.long())):
-        ok, od = ctx.call("evaluation on a %s batch" % dname, case, lambda: (s.psi(conv(space)), s.probability(conv(space)), s.amplitude(conv(space))))
+        ctx.require("compute_normalization(space) == normalization(space)" + tag, math.isclose(float(al[0]), Zf, rel_tol=1e-12), case, float(al[0]))
+        ctx.require("rbm_am.partition(space) == normalization(space)" + tag, math.isclose(float(al[1]), Zf, rel_tol=1e-12), case, float(al[1]))
+    convs = (("float32", lambda t: t.float()), ("int64", lambda t: t.long()),
+             ("strided view (every second column of a wider table)", lambda t: torch.stack([t, 1 - t], 2).reshape(len(t), -1)[:, ::2]),
+             ("column-major", lambda t: t.t().contiguous().t()))
+    for dname, conv in convs:
+        ok, od = ctx.call("evaluation on a %s batch" % dname, case, lambda: (s.psi(conv(space)), s.probability(conv(space)), s.amplitude(conv(space)),
+                                                                            s.phase(conv(space)), s.normalization(conv(space))))
         if ok:
-            good = all(np.allclose(np.asarray(a.detach().numpy(), dtype=float), np.asarray(b.detach().numpy(), dtype=float), rtol=1e-12, atol=0)
-                       for a, b in zip(od, (psi, prob, amp)))
-            ctx.require("psi / probability / amplitude do not depend on the dtype of the 0/1 batch (%s)" % dname + tag, good, case)
+            good = all(same(a.detach().numpy(), b, bd) for a, b, bd in zip(od, (psi_n, prob_n, amp_n, phase_n, np.float64(Zf)), (amp_n, 0.0, 0.0, ph_scale, 0.0)))
+            ctx.require("psi / probability / amplitude / phase / normalization do not depend on the dtype or memory layout of the 0/1 batch (%s)" % dname + tag, good, case)
     if tag == "":
-        for B in (len(sp) + 1, 70001):
-            idx = torch.tensor(ctx.rng.integers(0, len(sp), size=B))
+        for B in (N + 1, 70001):
+            idx = torch.tensor(ctx.rng.integers(0, N, size=B))
             ok, og = ctx.call("evaluation on a gathered batch of %d rows" % B, case, lambda: (s.psi(space[idx]), s.probability(space[idx])))
             if ok:
+                ii = idx.numpy()
                 good = tuple(og[0].shape) == (2, B) and tuple(og[1].shape) == (B,) and \
-                    bool(torch.allclose(og[0], psi[:, idx], rtol=1e-12, atol=0)) and bool(torch.allclose(og[1], prob[idx], rtol=1e-12, atol=0))
+                    same(og[0].numpy(), psi_n[:, ii], amp_n[ii]) and same(og[1].numpy(), prob_n[ii])
                 ctx.require("each row of a long batch gets the value of its basis state (B=%d)" % B, good, case)
     if kind == "positive":
         ctx.require("positive state is real and > 0" + tag, bool(np.all(psi_n[1] == 0) and np.all(psi_n[0] > 0)), case)
-        ctx.require("positive phase is zero" + tag, bool(np.all(phase.numpy() == 0)), case)
+        ctx.require("positive phase is zero" + tag, bool(np.all(phase_n == 0)), case)
     else:
         Eph = gen.np_eff_energy(*ph, sp)
-        ctx.require("phase == -E_ph/2" + tag, np.allclose(phase.numpy(), -Eph / 2, rtol=1e-9, atol=1e-12), case)
+        ctx.require("phase == -E_ph/2" + tag, np.allclose(phase_n, -Eph / 2, rtol=1e-9, atol=1e-12), case)
         want = np.sqrt(marg) * np.exp(1j * (-Eph / 2))
         got = psi_n[0] + 1j * psi_n[1]
         ctx.require("psi == amplitude * exp(i phase)" + tag, np.allclose(got, want, rtol=1e-7, atol=1e-12 * np.abs(want).max()), case)
+    # ---- the caller overwrites IN PLACE every tensor the library handed him (they are his), then makes the same calls:
+    #      the values are those of the state, not of what the caller did to earlier results
+    hcase = dict(case, history="every returned tensor overwritten in place by the caller (t.mul_(0).add_(7)), then the same calls again")
+    try:
+        overwrite([psi, amp, phase, prob, Z] + [t for (_, _, o1) in ones for t in o1])
+        ctx.count("returned_tensors_overwritten_before_the_repeated_call")
+    except Exception as e:                      # results that cannot be written to: nothing to examine
+        ctx.count("returned_tensors_not_writable:" + type(e).__name__)
+    ctx.require("the caller's batch tensor is unchanged by the calls" + tag, tuple(space.shape) == sp.shape and bool(np.array_equal(space.numpy(), sp)), hcase)
+    # (comparisons: within rounding of the first results -- 1e-12 relative, plus 1e-12 of the size of the summands where a value
+    #  is small through cancellation, since the vector and the batched form need not round alike)
+    refs = (psi_n, amp_n, phase_n, prob_n, np.float64(Zf))
+    bounds = (amp_n, 0.0, ph_scale, 0.0, 0.0)
+    ok, out2 = ctx.call("state evaluation repeated after the caller overwrote the returned tensors" + tag, hcase, lambda: (
+        s.psi(space), s.amplitude(space), s.phase(space), s.probability(space), s.normalization(space)))
+    if ok:
+        for nm, t2, ref, bd in zip(names + ("normalization",), out2, refs, bounds):
+            t2n = np.asarray(t2.numpy(), dtype=float)
+            ctx.require("%s: same value when called again after the caller overwrote the tensors returned earlier" % nm + tag,
+                        same(t2n, ref, bd), hcase, {"again": t2n.tolist(), "first": np.asarray(ref).tolist()})
+        try:
+            overwrite(out2)
+        except Exception:
+            pass
+    for (i, v1, o1) in ones[:2]:
+        ok, o2 = ctx.call("1-D call forms repeated after the caller overwrote the returned tensors" + tag, hcase,
+                          lambda: (s.psi(v1), s.amplitude(v1), s.phase(v1), s.probability(v1)))
+        if ok:
+            for nm, t2, ref, bd in zip(names, o2, (psi_n[:, i], amp_n[i], phase_n[i], prob_n[i]), (amp_n[i], 0.0, ph_scale, 0.0)):
+                t2n = np.asarray(t2.numpy(), dtype=float)
+                ctx.require("%s (1-D form): same value when called again after the caller overwrote the tensors returned earlier" % nm + tag,
+                            same(t2n, ref, bd), hcase, {"row": i, "again": t2n.tolist(), "first": np.asarray(ref).tolist()})
+    # each call repeated IMMEDIATELY after its own result was overwritten (a one-entry memo of the last result is stale exactly here)
+    vrow = ones[0][1] if ones else space[0]
+    irow = ones[0][0] if ones else 0
+    for nm, ref, bd in zip(names + ("normalization",), refs, bounds):
+        f = getattr(s, nm)
+        forms = [("batched", space, ref, bd)] + ([("1-D", vrow, np.asarray(ref)[..., irow], np.asarray(bd)[..., irow] if np.ndim(bd) else bd)] if nm != "normalization" else [])
+        for fname, arg, want, wb in forms:
+            ok, t1 = ctx.call("%s (%s form)" % (nm, fname) + tag, hcase, lambda: f(arg))
+            if not ok:
+                continue
+            try:
+                overwrite([t1])
+            except Exception:
+                continue
+            ok, t2 = ctx.call("%s (%s form) right after its own result was overwritten" % (nm, fname) + tag, hcase, lambda: f(arg))
+            if ok:
+                t2n = np.asarray(t2.numpy(), dtype=float)
+                ctx.require("%s (%s form): same value when the call is repeated right after the caller overwrote its result" % (nm, fname) + tag,
+                            same(t2n, want, wb), hcase, {"again": t2n.tolist(), "first": np.asarray(want).tolist()})
     ctx.traces += 1
     return True
 
 
-def one_case(ctx, kind, nv, nh, zero_bias=False, large=False, replay_params=None):
+def one_case(ctx, kind, nv, nh, zero_bias=False, large=False, replay_params=None, mode="ambient"):
+    if mode in ("default_float32", "default_float64"):
+        # a calling program sets the default dtype (single precision: torch's own default; double: common in numerical work)
+        # once, at its start: the state is also BUILT under it
+        with calling_mode(mode):
+            return _one_case(ctx, kind, nv, nh, zero_bias, large, replay_params, mode)
+    return _one_case(ctx, kind, nv, nh, zero_bias, large, replay_params, mode)
+
+
+def _one_case(ctx, kind, nv, nh, zero_bias, large, replay_params, mode):
     import torch
     if kind == "positive":
         s, am = gen.make_positive(ctx, nv, nh, zero_bias)
@@ -143,12 +307,12 @@ def one_case(ctx, kind, nv, nh, zero_bias=False, large=False, replay_params=None
             ph = tuple(np.array(x, dtype=float) for x in replay_params["ph"])
             gen.set_brbm(s.rbm_ph, *ph)
     W, b, c = am
-    case = {"state": kind, "nv": nv, "nh": nh, "am": gen.plist(*am), "ph": gen.plist(*ph) if ph else None}
+    case = {"state": kind, "nv": nv, "nh": nh, "am": gen.plist(*am), "ph": gen.plist(*ph) if ph else None, "mode": mode}
     # the full basis, enumerated independently of the library (itertools order = big-endian)
     space = torch.tensor(np.array(list(itertools.product([0.0, 1.0], repeat=nv))), dtype=torch.double)
     nontriv = (not zero_bias) and bool(np.all(b != 0) and np.all(c != 0)) and (nh != nv or kind == "complex")
     ctx.count("shape:%dx%d" % (nv, nh)); ctx.count("state:" + kind)
-    if not evaluate(ctx, s, kind, am, ph, space, case, nontriv):
+    if not evaluate(ctx, s, kind, am, ph, space, case, nontriv, mode=mode):
         return
     if replay_params is not None:
         return
@@ -169,17 +333,32 @@ def one_case(ctx, kind, nv, nh, zero_bias=False, large=False, replay_params=None
         write(s.rbm_ph, *ph2)
     ctx.count("rewrite_how:%d" % how)
     case2 = {"state": kind, "nv": nv, "nh": nh, "am": gen.plist(*am2), "ph": gen.plist(*ph2) if ph2 else None,
-             "history": "evaluate, rewrite parameters (how=%d), evaluate again on the same object and space" % how, "first_am": case["am"]}
-    evaluate(ctx, s, kind, am2, ph2, space, case2, nontriv, tag=" (after rewriting the parameters of the same object)")
+             "history": "evaluate, rewrite parameters (how=%d), evaluate again on the same object and space" % how, "first_am": case["am"], "mode": mode}
+    evaluate(ctx, s, kind, am2, ph2, space, case2, nontriv, tag=" (after rewriting the parameters of the same object)", mode=mode)
+
+
+def fixed_regimes(ctx):
+    """always first: both state types under every regime of the calling program (no_grad / inference_mode / enable_grad /
+    default dtype float32 / float64), incl. large biases; each case carries the shape, Z-encoding, layout and overwrite relations"""
+    for i, mode in enumerate(MODES[1:]):
+        for kind in ("complex", "positive"):
+            ctx.torch_seed()
+            one_case(ctx, kind, 3 if kind == "complex" else 2, 2 if kind == "complex" else 3, large=(i % 2 == 1), mode=mode)
 
 
 def run(ctx):
+    fixed_regimes(ctx)
     draws = 10 if ctx.thorough else 3
+    k = 0
     for (nv, nh) in shapes(ctx):
         for kind in ("positive", "complex"):
             for d in range(draws):
                 ctx.torch_seed()
-                one_case(ctx, kind, nv, nh, large=(d % 3 == 2))
+                mode = "ambient"
+                if d % 3 == 1:                      # every third draw: another regime of the calling program
+                    mode = MODES[1 + k % (len(MODES) - 1)]
+                    k += 1
+                one_case(ctx, kind, nv, nh, large=(d % 3 == 2), mode=mode)
     # a few fresh-initialisation style cases (zero biases), the only regime the test-suite visits
     for kind in ("positive", "complex"):
         one_case(ctx, kind, 2, 2, zero_bias=True)
@@ -190,10 +369,13 @@ def search(ctx, broken, budget):
     import time
     t0 = time.time()
     n0 = len(ctx.failures)
+    fixed_regimes(ctx)
+    if len(ctx.failures) > n0:
+        return ctx.failures[n0]
     for (nv, nh) in [(nv, nh) for nv in range(1, 5) for nh in range(1, 5)]:
         for kind in ("positive", "complex"):
             for d in range(4):
-                one_case(ctx, kind, nv, nh)
+                one_case(ctx, kind, nv, nh, mode=MODES[d % len(MODES)] if d else "ambient")
                 if len(ctx.failures) > n0:
                     return ctx.failures[n0]
                 if time.time() - t0 > budget:
@@ -205,6 +387,6 @@ def replay(ctx, rec):
     """re-executes exactly the recorded failing case (parameters are stored in the replay file)"""
     case = rec.get("failing", {}).get("case", {})
     if case.get("am"):
-        one_case(ctx, case.get("state", "positive"), int(case["nv"]), int(case["nh"]), replay_params=case)
+        one_case(ctx, case.get("state", "positive"), int(case["nv"]), int(case["nh"]), replay_params=case, mode=case.get("mode") or "ambient")
     else:
         run(ctx)
